@@ -422,7 +422,8 @@ func (api *API) mapDecodeStructFields(
 			continue
 		}
 
-		if sField.settings.inlined {
+		// an inlined field that carries a field key is nested under that key by the map encoder
+		if sField.settings.inlined && sField.settings.ts.fieldKey == nil {
 			if err := api.mapDecode(ctx, m, fieldValue, sField.settings.ts, opts); err != nil {
 				return ierrors.Wrapf(err, "failed to deserialize inlined struct field %s", sField.name)
 			}
